@@ -156,85 +156,3 @@ Proof.
   - left. reflexivity.
 Qed.
 
-(* the inner loop of encodePairs *)
-Lemma pairs_inner_ok : forall d sym1 sym1Code sym1Len sym2Len start endi t,
-  sym1 < 256 -> all_entries lit_short_ok t ->
-  all_entries lit_short_ok (fst (
-    forN start endi (fun k (a : arr * bool) =>
-      let '(t, stop) := a in
-      if stop then a
-      else
-        let sym2Index := aget (codeList d) k in
-        let sym2 := indexToSym sym2Index in
-        if maxLitLenSym <? sym2 then (t, true)
-        else
-          let sym2Code := hc_code (aget (litAndDistHuff d) sym2Index) in
-          let code := u32 (N.lor sym1Code (shl32 sym2Code sym1Len)) in
-          let codeLen := sym1Len + sym2Len in
-          (aset t code (u32 (N.lor (N.lor (N.lor sym1 (N.shiftl sym2 8))
-                                          (N.shiftl codeLen 28)) (N.shiftl 2 26))),
-           false))
-      (t, false))).
-Proof.
-  intros d sym1 sym1Code sym1Len sym2Len start endi t Hs1 Ht.
-  apply (forN_inv _ (fun a : arr * bool => all_entries lit_short_ok (fst a))); [exact Ht|].
-  intros k [x stop] _ Hx. cbn [fst] in Hx.
-  destruct stop; [exact Hx|].
-  destruct (maxLitLenSym <? indexToSym (aget (codeList d) k)) eqn:E2; [exact Hx|].
-  cbn [fst]. apply all_entries_aset; [exact Hx|].
-  apply short_entry_ok.
-  - unfold maxLitLenSym in E2. apply lor_lt_pow2.
-    + change (2 ^ 25) with 33554432. lia.
-    + apply (shiftl_lt _ 8 10 25); [|lia]. change (2 ^ 10) with 1024. lia.
-  - right. reflexivity.
-Qed.
-
-Lemma pairs_loop_ok : forall fuel t d ll minLen index1 t' e,
-  litlen_sorted d -> 2 * minLen <= ll -> ll <= 12 ->
-  aget (litCount d) minLen <= index1 -> index1 <= 514 -> 515 - index1 < N.of_nat fuel ->
-  all_entries lit_short_ok t ->
-  pairs_loop fuel t d ll index1 (aget (litCount d) (ll - minLen + 1)) = (t', e) ->
-  e = ENone /\ all_entries lit_short_ok t'.
-Proof.
-  induction fuel as [|f IH]; intros t d ll minLen index1 t' e HS Hm Hll Hlo Hhi Hfuel Ht H.
-  - lia.
-  - cbn [pairs_loop] in H.
-    destruct (index1 <? aget (litCount d) (ll - minLen + 1)) eqn:E1.
-    2:{ inversion H; subst. split; [reflexivity|exact Ht]. }
-    destruct (bucket_ex d HS minLen (ll - minLen + 1) index1 ltac:(lia) ltac:(lia) ltac:(lia))
-      as (L & HL & Hb & Hc & Hlen).
-    rewrite Hlen in H.
-    pose proof (lc_le_514 d HS (L + 1) ltac:(lia)) as HL1.
-    destruct (256 <=? indexToSym (aget (codeList d) index1)) eqn:E2.
-    + rewrite next_index_eq in H by lia.
-      apply (IH _ _ _ minLen _ _ _ HS Hm Hll) in H; [exact H|lia|lia|lia|exact Ht].
-    + rewrite (sub32_le ll L) in H by lia.
-      destruct (22 <=? ll - L) eqn:E3; [lia|].
-      pose proof (lc_step d HS (ll - L) ltac:(lia)) as H1.
-      pose proof (lc_le_514 d HS (ll - L + 1) ltac:(lia)) as H2.
-      destruct ((aget (litCount d) (ll - L + 1) <? aget (litCount d) (ll - L)) ||
-                (516 <? aget (litCount d) (ll - L + 1))) eqn:E4; [lia|].
-      match type of H with (let '(short, _) := ?X in _) = _ =>
-        pose proof (pairs_inner_ok d (indexToSym (aget (codeList d) index1))
-                     (hc_code (aget (litAndDistHuff d) (aget (codeList d) index1))) L (ll - L)
-                     (aget (litCount d) (ll - L)) (aget (litCount d) (ll - L + 1)) t
-                     ltac:(lia) Ht) as Hin;
-        destruct X as [t1 st1] eqn:EX
-      end.
-      cbn [fst] in Hin.
-      rewrite u16_small in H by lia.
-      apply (IH _ _ _ minLen _ _ _ HS Hm Hll) in H; [exact H|lia|lia|lia|exact Hin].
-Qed.
-
-Lemma encodePairs_ok : forall t d ll minLen t' e,
-  litlen_sorted d -> 2 * minLen <= ll -> ll <= 12 ->
-  all_entries lit_short_ok t ->
-  encodePairs t d ll minLen = (t', e) ->
-  e = ENone /\ all_entries lit_short_ok t'.
-Proof.
-  intros t d ll minLen t' e HS Hm Hll Ht H. unfold encodePairs in H.
-  rewrite sub32_le in H by lia.
-  pose proof (lc_le_514 d HS minLen ltac:(lia)) as H1.
-  apply (pairs_loop_ok _ _ _ _ minLen _ _ _ HS Hm Hll) in H; [exact H|lia|lia| |exact Ht].
-  unfold small_fuel. lia.
-Qed.
